@@ -446,6 +446,7 @@ package sqlite3
 //@   ensures local-a-failed-transaction-is-reported: txs == 1 ==> err == werr
 
 //@ func (s *SqliteKV) Import$1(tx *sql.Tx) (err error)
+//@   arith bv
 //@   safety off
 //@   opt frame=off
 //@   requires the-transaction-and-the-captured-receiver-exist: tx != nil && s != nil
@@ -455,7 +456,12 @@ package sqlite3
 //@   at call Exec#*: assert every-statement-runs-on-this-transaction-and-none-after-a-failure: onTx && !failed
 //@   at after call Exec#*: ghost failed := failed || callresult1 != nil
 //@   at call ExecContext#?: assert no-statement-bypasses-the-transaction: false
+//@   ghost sOK bool = false
+//@   at after call importedSimpleValue#*: ghost sOK := callresult1
+//@   ghost hasLease bool = false
+//@   at after call GetLeaseToken#1: ghost hasLease := callresult != 0
 //@   at call updateKeyTracker#*: assert tracker-updated-in-the-same-transaction-for-the-imported-key: callarg2 == tx && !failed && callarg3 == key && callarg5 == 0
+//@   at call updateKeyTracker#*: assert tracker-flags-name-exactly-the-kinds-imported: val != nil && callarg4 == (uint8(sOK ? 1 : 0) | uint8(len(children) > 0 ? 2 : 0) | uint8(hasLease ? 4 : 0)) && SimpleFlag == 1 && PrefixFlag == 2 && LeaseFlag == 4
 //@   at after call updateKeyTracker#*: ghost failed := failed || callresult != nil
 //@   ensures local-success-means-no-statement-failed: err == nil ==> !failed
 //@   loop key: invariant all-statements-so-far-on-this-transaction-and-successful: onTx && !failed
@@ -491,3 +497,34 @@ package sqlite3
 //@   at after call Exec#*: ghost execs := execs + 1
 //@   ensures local-success-means-every-batch-lost-data-and-tracker-rows-together: err == nil ==> (!failed && execs == 4 * batches)
 //@   loop batch: invariant whole-batches-so-far: !failed && execs == 4 * batches && batches >= 0
+
+// ---- C10: the SQLite listing reads only the key tracker: every tracked key with the requested prefix yields one
+// entry per kind flag it carries (simple, prefix, lease) with that key, and nothing else is appended
+//@ func (s *SqliteKV) ListKeys(ctx context.Context, prefix []byte) (r []*protocol.KeyComposite, err error)
+//@   arith bv
+//@   safety off
+//@   opt frame=off
+//@   requires s != nil
+//@   ghost scanned bool = false
+//@   ghost gf uint8 = 0
+//@   ghost hp bool = false
+//@   ghost a1 bool = false
+//@   ghost a2 bool = false
+//@   ghost a3 bool = false
+//@   at call QueryContext#1: assert reads-the-tracker-listing-statement: callarg0 == s.stmts.listKeys
+//@   at after call Scan#1: ghost scanned := callresult == nil
+//@   at after call Scan#1: ghost gf := flags
+//@   at after call Scan#1: ghost hp := false
+//@   at after call Scan#1: ghost a1 := false
+//@   at after call Scan#1: ghost a2 := false
+//@   at after call Scan#1: ghost a3 := false
+//@   at call HasPrefix#1: assert filters-on-the-requested-prefix: callarg0 == key && callarg1 == prefix
+//@   at after call HasPrefix#1: ghost hp := callresult
+//@   at call append#1: assert a-simple-entry-for-a-matching-key-with-the-simple-flag: scanned && hp && gf & 1 != 0 && !a1 && len(callarg1) == 1 && callarg1[0].Type == protocol.KeyComposite_SIMPLE && callarg1[0].Key == key && flags == gf
+//@   at call append#1: ghost a1 := true
+//@   at call append#2: assert a-prefix-entry-for-a-matching-key-with-the-prefix-flag: scanned && hp && gf & 2 != 0 && !a2 && len(callarg1) == 1 && callarg1[0].Type == protocol.KeyComposite_PREFIX && callarg1[0].Key == key && flags == gf
+//@   at call append#2: ghost a2 := true
+//@   at call append#3: assert a-lease-entry-for-a-matching-key-with-the-lease-flag: scanned && hp && gf & 4 != 0 && !a3 && len(callarg1) == 1 && callarg1[0].Type == protocol.KeyComposite_LEASE && callarg1[0].Key == key && flags == gf
+//@   at call append#3: ghost a3 := true
+//@   loop 1: invariant every-scanned-row-produced-exactly-its-kinds: scanned ==> (a1 == (hp && gf & 1 != 0) && a2 == (hp && gf & 2 != 0) && a3 == (hp && gf & 4 != 0))
+//@   ensures local-flag-values: SimpleFlag == 1 && PrefixFlag == 2 && LeaseFlag == 4
